@@ -44,6 +44,12 @@ pub struct Plan {
     /// allocations made by the library inside a display are scheduling points too
     #[serde(default)]
     pub alloc_seams: bool,
+    /// a soak run: no per-operation log lines are kept
+    #[serde(default)]
+    pub lean: bool,
+    /// every thread executes its operation list this many times over (0 = once)
+    #[serde(default)]
+    pub repeat: u64,
 }
 
 /// Which fault kinds a run may use (swarm testing: varied per run).
@@ -235,7 +241,7 @@ fn generate_full(seed: u64, lite: bool) -> Plan {
         .map(|_| if !swarm.switches || r.chance(1, 2) { 0 } else { 1 + r.below(8) as u8 })
         .collect();
     let alloc_seams = n_threads > 1 && r.chance(1, 2);
-    Plan { seed, backend: amt::BACKEND.to_string(), threads, sched, alloc_seams }
+    Plan { seed, backend: amt::BACKEND.to_string(), threads, sched, alloc_seams, lean: false, repeat: 0 }
 }
 
 // ------------------------------------------------------------- systematic plans
@@ -336,5 +342,43 @@ pub fn systematic(index: u64) -> Plan {
             threads[0].extend(probes);
         }
     }
-    Plan { seed: index, backend: amt::BACKEND.to_string(), threads, sched, alloc_seams: false }
+    Plan { seed: index, backend: amt::BACKEND.to_string(), threads, sched, alloc_seams: false, lean: false, repeat: 0 }
+}
+
+// ------------------------------------------------------------------ soak plans
+//
+// A long history in one process and on one thread: plan `i` displays values, units
+// and now and then a rate of type `i` `ops` times over (a cycle of SOAK_CYCLE
+// operations repeated). State that only goes wrong after tens of thousands of
+// displays (a counter that wraps, a buffer that has grown) needs it; the seeded
+// search's long runs stop at a few hundred.
+
+pub const SOAK_CYCLE: usize = 2048;
+
+pub fn soak_total() -> u64 {
+    TABLE.len() as u64
+}
+
+pub fn soak(index: u64, ops: u64) -> Plan {
+    let ty = index as usize % TABLE.len();
+    let n = (TABLE[ty].n_units)();
+    let d = Spec::default();
+    let mut v = Vec::with_capacity(SOAK_CYCLE);
+    for k in 0..SOAK_CYCLE {
+        let unit = k % n;
+        let amount = amt::from_milli((k as i64 * 37) % 9001 - 4500);
+        let (what, spec) = match k % 64 {
+            63 => (What::Unit { ty, unit }, d),
+            31 => (
+                What::Rate { pair: ty % RATES.len(), term_unit: unit, term: amount, per_unit: k % 7, per: amt::from_milli(4000) },
+                d,
+            ),
+            x if x % 8 == 5 => (What::Qty { ty, unit, amount }, Spec { prec: Some(k % 4), ..d }),
+            x if x % 8 == 6 => (What::Qty { ty, unit, amount }, Spec { align: 3, width: Some(8 + k % 24), ..d }),
+            _ => (What::Qty { ty, unit, amount }, d),
+        };
+        v.push(Op { what, spec, fault: None, nested: None });
+    }
+    let repeat = (ops + SOAK_CYCLE as u64 - 1) / SOAK_CYCLE as u64;
+    Plan { seed: index, backend: amt::BACKEND.to_string(), threads: vec![v], sched: vec![0], alloc_seams: false, lean: true, repeat }
 }
